@@ -106,6 +106,40 @@ theorem C02_remove_atomic_and_idempotent (ops : List Op) (a : Aid) :
           simp [Reg.deregister, hnot i.model r1 i hr1 hi rfl]
         simp [this, set_getElem?_self hr1]
 
+/-- **Removed stays removed — in every model, at any distance.**  Once `a.remove()` has been called at some point of a
+    history, then at every later moment (whatever else happened in between: churn, activations, reorderings) the agent is
+    in none of the three views of *any* model, and calling `a.remove()` again changes nothing observable. -/
+theorem C02_removed_stays_removed_everywhere (ops : List Op) (a : Aid) (h : a ∈ (run World.empty ops).removedLog) :
+    (∀ (m : Nat) (r : Reg), (run World.empty ops).regs[m]? = some r → a ∉ r.hard ∧ a ∉ r.all ∧ ∀ ts ∈ r.byType, a ∉ ts.2) ∧
+    (let w := run World.empty ops
+     let w2 := removeAgent w a
+     w2.regs = w.regs ∧ w2.info = w.info ∧ w2.held = w.held ∧ w2.sets = w.sets ∧ w2.log = w.log) := by
+  have h0 := winv_run_perm (winv_empty List.Perm) ops
+  generalize run World.empty ops = w at h0 h
+  have hnot : ∀ (m : Nat) (r : Reg), w.regs[m]? = some r → a ∉ r.hard := by
+    intro m r hr hmem
+    rw [(h0.regs m r hr).hard, mem_expectedHard] at hmem
+    exact hmem.2 h
+  refine ⟨fun m r hr => ?_, ?_⟩
+  · have hh := hnot m r hr
+    have hinv := h0.regs m r hr
+    refine ⟨hh, fun ha => hh (hinv.all.mem_iff.mp ha), fun ts hts ha => hh ?_⟩
+    exact (List.mem_filter.mp ((hinv.bt.groups ts hts).mem_iff.mp ha)).1
+  · simp only
+    cases hi : w.info[a]? with
+    | none => rw [removeAgent_none hi]; simp
+    | some i =>
+      cases hr : w.regs[i.model]? with
+      | none => rw [removeAgent_noreg hi hr]; simp
+      | some r =>
+        rw [removeAgent_some hi hr]
+        have : r.deregister a i.ty = r := by simp [Reg.deregister, hnot i.model r hr]
+        simp [this, set_getElem?_self hr]
+
+/-- non-vacuity: agent 0 is removed, then a lot happens, then it is removed again -/
+example : (0 : Aid) ∈ (run World.empty [.newModel ⟨[2, 1]⟩, .create 0 0 true [], .create 0 1 false [], .remove 0, .create 0 0 false [],
+    .shuffle (.all 0), .doSet (fun _ => [.rm 0]) 1 (.all 0)]).removedLog := by decide
+
 /-- **Coexisting models never influence each other.**  Creating agents in model `m`, removing an agent of
     model `m`, removing all agents of `m`, or reordering `m`'s sets in place leaves the registry of every
     other model — members, order, by-type sets, id counter, generator — exactly as it was. -/
